@@ -361,9 +361,13 @@ func (g *gen) entityLike() string {
 	name := g.pick("entname", []string{
 		"amp", "lt", "gt", "quot", "copy", "nbsp", "not", "notit", "frac12", "frac14", "frac34", "sup1", "sup2", "sup3",
 		"there4", "blk14", "blk12", "blk34", "emsp13", "emsp14", "Aacute", "AMP", "LT", "ETH", "bogus", "b0gus", "x1",
-		"#60", "#x3c", "#X3C", "#38", "#0", "#128", "#x110000", "#", "#x", "#xZ", "#1a", "#189",
+		"#60", "#x3c", "#X3C", "#38", "#0", "#128", "#x110000", "#", "#x", "#X", "#xZ", "#1a", "#189",
 	})
-	return "&" + name + g.pick("entterm", []string{";", "", ";", "=", "x", "1", " ", ";;"})
+	e := "&" + name + g.pick("entterm", []string{";", "", ";", "=", "x", "1", " ", ";;"})
+	if hasEmptyHexRef(e) && g.avoid(fHexEmpty) {
+		e = "&#x"
+	}
+	return e
 }
 
 func (g *gen) freeValue() string {
